@@ -38,7 +38,7 @@ NASTY = [
     "", "plain", "it's", "''", "'", "\\", "\\\\", "ends with backslash\\", "\\'", "a\\'b", "line1\nline2", "tab\there", "cr\rlf",
     "100%", "%s", "%(x)s", "%%", "%d items", "$v1", "$$x$$", "$5", "?", "??", "a?b", ";", "a;b", "--", "a -- b", "/* c */", "*/",
     "'; DROP TABLE DECOY; --", "' OR '1'='1", "x') ; DELETE FROM DECOY; --", "\"quoted\"", "`tick`", "héllo", "✓ ✗", "日本語", "🎉 party",
-    "a\u0301", " lead", "trail ", "  ", "NULL", "null", "TRUE", "1", "1.5", "{\"k\": \"v\"}", "[1,2]", "%' OR '%'='", "_", "%_%",
+    "a\u0301", " lead", "trail ", "  ", "ACME      00042     EUR", "a \t b", "nb\u00a0sp", "em\u2003 sp", "x  ", "NULL", "null", "TRUE", "1", "1.5", "{\"k\": \"v\"}", "[1,2]", "%' OR '%'='", "_", "%_%",
 ]
 TYPED = [
     ("I", 0), ("I", 1), ("I", -1), ("I", 2**31), ("I", -(2**63)), ("I", 2**63 - 1),
@@ -152,7 +152,9 @@ def _connect(style: str) -> tuple[Any, Any]:
     saved = snowflake.connector.paramstyle
     snowflake.connector.paramstyle = "qmark" if style == "qmark" else ("format" if style == "format" else "pyformat")
     try:
-        fs = core.new_fs()
+        # half of the instances also carry a nop_regexes option: binding must not depend on it
+        _state["n_inst"] = _state.get("n_inst", 0) + 1
+        fs = core.new_fs(nop_regexes=[r"^CALL\b", r"^GRANT\s"]) if _state["n_inst"] % 2 == 0 else core.new_fs()
         conn = fs.connect("db1", "s1")
         _state["last_twin"] = fs.connect("db1", "s1")
     finally:
@@ -374,6 +376,11 @@ def _run_executemany(case: dict, env: core.Env) -> None:
     cur.execute("CREATE OR REPLACE TABLE EM (S VARCHAR, N INT)")
     tcur.execute("CREATE OR REPLACE TABLE EM_LOOP (S VARCHAR, N INT)")
     sql = f"INSERT INTO EM (S, N) VALUES ({ph(style, 0)}, {ph(style, 1)})"
+    if len(case["vals"]) % 2 == 1:
+        # next to a session variable whose value contains % (substituted after the parameters, row after row)
+        for c_ in (cur, tcur):
+            c_.execute("SET pv = '50% off'")
+        sql = f"INSERT INTO EM (S, N) SELECT {ph(style, 0)}, {ph(style, 1)} WHERE $pv = '50{'%%' if style != 'qmark' else '%'} off'"
     seq = [bind(style, [v, i]) for i, v in enumerate(case["vals"])]
     if style == "pyformat_dict" and not seq:
         seq = []
